@@ -22,4 +22,5 @@ c5e8a78 C06
 4db0155 C06
 d28e16b C06
 6cbe182 C06
+63b20ec C06
 LIST
